@@ -324,8 +324,6 @@ func (c *Ctx) c15Behind(rule string, fn *ssa.Function, eff Effect, guard string,
 		return
 	}
 	g := parseGuard(guard)
-	removed, _ := guardEdges(fn, g)
-	c.EdgesRemoved += len(removed)
 	isCut := func(in ssa.Instruction) bool {
 		for _, x := range cuts {
 			if x.Match(in) {
@@ -349,28 +347,49 @@ func (c *Ctx) c15Behind(rule string, fn *ssa.Function, eff Effect, guard string,
 		}
 		return bi
 	}
-	limit := map[*ssa.BasicBlock]int{}
-	work := []*ssa.BasicBlock{fn.Blocks[0]}
-	seen := map[*ssa.BasicBlock]bool{fn.Blocks[0]: true}
-	for len(work) > 0 {
-		b := work[len(work)-1]
-		work = work[:len(work)-1]
-		if bi := firstCut(b, 0); bi >= 0 {
-			limit[b] = bi + 1
-			continue
-		}
-		limit[b] = len(b.Instrs)
-		for si, s := range b.Succs {
-			if !removed[edge{b, si}] && !seen[s] {
-				seen[s] = true
-				work = append(work, s)
+	badFor := func(g guardSpec) []string {
+		removed, _ := guardEdges(fn, g)
+		c.EdgesRemoved += len(removed)
+		limit := map[*ssa.BasicBlock]int{}
+		work := []*ssa.BasicBlock{fn.Blocks[0]}
+		seen := map[*ssa.BasicBlock]bool{fn.Blocks[0]: true}
+		for len(work) > 0 {
+			b := work[len(work)-1]
+			work = work[:len(work)-1]
+			if bi := firstCut(b, 0); bi >= 0 {
+				limit[b] = bi + 1
+				continue
+			}
+			limit[b] = len(b.Instrs)
+			for si, s := range b.Succs {
+				if !removed[edge{b, si}] && !seen[s] {
+					seen[s] = true
+					work = append(work, s)
+				}
 			}
 		}
+		var bad []string
+		for _, e := range effs {
+			if lim, ok := limit[e.Block()]; ok && indexIn(e.Block(), e) < lim {
+				bad = append(bad, c.P.InstrPos(e))
+			}
+		}
+		return bad
 	}
-	var bad []string
-	for _, e := range effs {
-		if lim, ok := limit[e.Block()]; ok && indexIn(e.Block(), e) < lim {
-			bad = append(bad, c.P.InstrPos(e))
+	bad := badFor(g)
+	if len(bad) > 0 {
+		// `x > y` written as `if x != y { if x < y {…} … }`: every ≥/≠ weakening of the strict atoms must hold
+		if vs := strictVariants(g); len(vs) > 0 {
+			all := true
+			for _, v := range vs {
+				if len(badFor(v)) > 0 {
+					all = false
+					break
+				}
+			}
+			if all {
+				bad = nil
+			}
 		}
 	}
 	if len(bad) > 0 {
@@ -413,7 +432,7 @@ func (c *Ctx) c15Behind(rule string, fn *ssa.Function, eff Effect, guard string,
 			}
 		}
 	}
-	c.add("guard", rule, construct, Held, c.P.InstrPos(effs[0]), fmt.Sprintf("%d effect site(s); %d guard edge(s) removed; every remaining path passes a cut store (%d cut store(s) checked for overwrite)", len(effs), len(removed), ncut))
+	c.add("guard", rule, construct, Held, c.P.InstrPos(effs[0]), fmt.Sprintf("%d effect site(s); guard edges removed; every remaining path passes a cut store (%d cut store(s) checked for overwrite)", len(effs), ncut))
 }
 
 // c15FieldStores: frame condition. Every store in fn to a field of struct T is to a field listed in
